@@ -378,6 +378,8 @@ pub struct DgramMeta {
     pub has_close: bool,
     pub ack_eliciting: bool,
     pub tags: u32,
+    /// bytes used for the truncated packet number (single short-header packet datagrams only)
+    pub pn_len: Option<u32>,
 }
 
 pub mod tag {
@@ -408,7 +410,7 @@ pub struct Ctx {
     pub port_to_ep: HashMap<u16, EpId>,
     pub dgram_meta: HashMap<u64, DgramMeta>,
     /// packets encoded since the last datagram boundary, per endpoint
-    pub cur_pkts: BTreeMap<EpId, Vec<(u64, Space, u64, u32, bool)>>,
+    pub cur_pkts: BTreeMap<EpId, Vec<(u64, Space, u64, u32, bool, usize)>>,
     /// features observed (used for the scenario signature)
     pub features: BTreeMap<&'static str, u64>,
     pub n_violations: usize,
@@ -550,7 +552,7 @@ impl World {
             .cur_pkts
             .entry(p.ep)
             .or_default()
-            .push((p.conn, p.space, p.pn, tags, p.ack_eliciting()));
+            .push((p.conn, p.space, p.pn, tags, p.ack_eliciting(), p.payload_len));
         let World { ctx, mons } = self;
         mons.on_tx(ctx, &p);
     }
@@ -566,7 +568,8 @@ impl World {
             conn,
             ..Default::default()
         };
-        for (c, s, pn, tags, ae) in pkts {
+        let mut payload_total = 0usize;
+        for (c, s, pn, tags, ae, plen) in pkts {
             if c != conn {
                 continue;
             }
@@ -574,6 +577,20 @@ impl World {
             meta.tags |= tags;
             meta.ack_eliciting |= ae;
             meta.has_close |= tags & tag::CLOSE != 0;
+            payload_total += plen;
+        }
+        // a datagram holding exactly one short-header packet: its packet-number length follows
+        // from the sizes (1 flags byte + DCID + pn + payload + 16-byte tag)
+        if meta.pkts.len() == 1 && meta.pkts[0].1 == Space::App && bytes[0] & 0x80 == 0 {
+            let dcid_len = if ep == SERVER {
+                self.ctx.params.clients[0].cfg.cid_len
+            } else {
+                self.ctx.params.server.cid_len
+            };
+            let fixed = 1 + dcid_len + payload_total + 16;
+            if bytes.len() > fixed && bytes.len() - fixed <= 4 {
+                meta.pn_len = Some((bytes.len() - fixed) as u32);
+            }
         }
         let h = vq_util::fnv(bytes);
         self.ctx.dgram_meta.insert(h, meta);
